@@ -248,7 +248,10 @@ R_C04_GhostRecheck(gh, c, pol, req, a, o) ==
 \* the cookie handed back never schedules the next check later than the statement allows
 R_C04_NextCheckBound(c, pol, req, a, o) ==
    (c.kind = "sess" /\ o.after.kind = "sess") =>
-      /\ o.after.val <= (IF Due(c) = "validate" /\ (Confirmed(c, pol, a, o) \/ EffUnavail(c, pol, a)) THEN ValidTTL ELSE c.val)
+      \* (a confirmed REFRESH is a successful check of token and groups too: the validity window may restart at it)
+      /\ o.after.val <= (IF (Due(c) = "validate" /\ (Confirmed(c, pol, a, o) \/ EffUnavail(c, pol, a)))
+                             \/ (Due(c) = "refresh" /\ Confirmed(c, pol, a, o))
+                          THEN ValidTTL ELSE c.val)
       /\ o.after.ref <= (IF Due(c) = "refresh" THEN (IF Confirmed(c, pol, a, o) THEN a.rexp
                                                      ELSE IF EffUnavail(c, pol, a) THEN ValidTTL ELSE c.ref)
                          ELSE c.ref)
